@@ -110,19 +110,19 @@ fn run_mgr(case: &Sx) -> (Sx, String) {
 fn gen_mgr(tier: Tier, rng: &mut Rng, v: &mut Vec<Sx>) {
     let n = if tier == Tier::Thorough { 20000 } else { 2500 };
     for _ in 0..n {
-        let ns = rng.range(2, 4) as i64; let nj = rng.range(1, 3) as i64;
+        let ns = rng.range(2, 3) as i64; let nj = rng.range(1, 3) as i64;
         let mut ops = vec![]; let mut live: Vec<i64> = vec![];
         let reg = |rng: &mut Rng, id: i64| -> Sx { let l = rng.below(ns as u64) as i64; let mut r = rng.below(ns as u64) as i64; if r == l { r = (l + 1) % ns; }
-            Sx::l(vec![Sx::n(0), Sx::i(id), Sx::i(l), Sx::i(r), Sx::n(*rng.pick(&[0u64, 1, 2, 3, 5])), Sx::n(rng.below(3))]) };
+            Sx::l(vec![Sx::n(0), Sx::i(id), Sx::i(l), Sx::i(r), Sx::n(*rng.pick(&[1u64, 2, 3, 5, 8])), Sx::n(*rng.pick(&[0u64, 0, 1, 2]))]) };
         for id in 0..nj { ops.push(reg(rng, id)); live.push(id); }
         let mut next = nj; let mut eid = 0i64;
-        for _ in 0..rng.range(3, 12) {
-            match rng.below(12) {
+        for _ in 0..rng.range(5, 16) {
+            match rng.below(14) {
                 0 if !live.is_empty() => { let i = rng.below(live.len() as u64) as usize; ops.push(Sx::l(vec![Sx::n(1), Sx::i(live.remove(i))])); }
                 1 => { ops.push(reg(rng, next)); live.push(next); next += 1; }
                 2 | 3 => { let z = rng.below(14) as i64; ops.push(Sx::l(vec![Sx::n(3), Sx::i(rng.below(ns as u64 + 1) as i64), Sx::i(z)])); }
-                _ => { eid += 1; let key = if rng.chance(1, 10) { Sx::l(vec![]) } else { Sx::l(vec![Sx::i(rng.below(2) as i64)]) };
-                       ops.push(Sx::l(vec![Sx::n(2), Sx::i(rng.below(ns as u64 + 1) as i64), Sx::i(eid), Sx::i(rng.below(8) as i64), key, Sx::i(rng.below(3) as i64)])); }
+                _ => { eid += 1; let key = if rng.chance(1, 12) { Sx::l(vec![]) } else { Sx::l(vec![Sx::i(if rng.chance(3, 4) { 0 } else { 1 })]) };
+                       ops.push(Sx::l(vec![Sx::n(2), Sx::i(rng.below(ns as u64 + 1) as i64), Sx::i(eid), Sx::i(rng.below(6) as i64), key, Sx::i(rng.below(3) as i64)])); }
             }
         }
         v.push(Sx::l(vec![Sx::n(9), Sx::l(ops)]));
